@@ -44,6 +44,37 @@ type CallSpec struct {
 	Args    []Val  `json:"args,omitempty"`
 	ArgLit  []bool `json:"arglit,omitempty"`
 	ViaTpl  bool   `json:"viatpl,omitempty"`
+	// Loop: the call sits inside @each(x in Loop) and is evaluated once per element;
+	// LoopArgs are extra arguments built from x (see loopArgKinds).
+	Loop     []int64  `json:"loop,omitempty"`
+	LoopArgs []string `json:"loopargs,omitempty"`
+}
+
+var loopArgKinds = []string{"x", "-x", "[x]", "[-x]", "[[0, -x]]", "{n: -x}", "{n: x, m: [x]}", "(x + 1)", "[-x, x]"}
+
+// loopArgCanon is the plain Go value of a loop argument for a given x.
+func loopArgCanon(kind string, x int64) any {
+	switch kind {
+	case "x":
+		return x
+	case "-x":
+		return -x
+	case "[x]":
+		return []any{x}
+	case "[-x]":
+		return []any{-x}
+	case "[[0, -x]]":
+		return []any{[]any{int64(0), -x}}
+	case "{n: -x}":
+		return map[string]any{"n": -x}
+	case "{n: x, m: [x]}":
+		return map[string]any{"n": x, "m": []any{x}}
+	case "(x + 1)":
+		return x + 1
+	case "[-x, x]":
+		return []any{-x, x}
+	}
+	panic("sim: loop arg kind " + kind)
 }
 
 // Canon is the plain Go value the property says a function receives.
@@ -74,6 +105,14 @@ func Canon(v Val) any {
 			out[k] = Canon(v.V[i])
 		}
 		return out
+	case "named":
+		switch v.I % 3 {
+		case 0:
+			return map[string]any{"Num": int64(7), "Title": "Dr"}
+		case 1:
+			return map[string]any{"Title": "Ms", "Extra": true, "Num": int64(9)}
+		}
+		return map[string]any{"Num": "n"}
 	case "ptr":
 		return Canon(v.A[0])
 	}
@@ -199,6 +238,14 @@ func (c CallSpec) build() (string, *Val) {
 	for i, a := range c.Args {
 		args[i] = ref(a, i < len(c.ArgLit) && c.ArgLit[i])
 	}
+	if len(c.Loop) > 0 {
+		args = append(args, c.LoopArgs...)
+		elems := make([]string, len(c.Loop))
+		for i, x := range c.Loop {
+			elems[i] = fmt.Sprint(x)
+		}
+		return "@each(x in [" + strings.Join(elems, ", ") + "]){{ " + recv + "." + c.Name + "(" + strings.Join(args, ", ") + ") }};@end", data
+	}
 	return "{{ " + recv + "." + c.Name + "(" + strings.Join(args, ", ") + ") }}", data
 }
 
@@ -312,6 +359,15 @@ func genCall(r *Rng, typ, name string, viaTpl bool) CallSpec {
 		c.Args = append(c.Args, genArg(r, 2))
 		c.ArgLit = append(c.ArgLit, r.Chance(50))
 	}
+	if r.Chance(25) {
+		// the same call site evaluated several times in one render, with arguments built from the loop variable
+		for i, m := 0, r.Range(2, 4); i < m; i++ {
+			c.Loop = append(c.Loop, int64(r.Range(-3, 9)))
+		}
+		for i, m := 0, r.Range(1, 3); i < m; i++ {
+			c.LoopArgs = append(c.LoopArgs, Pick(r, loopArgKinds))
+		}
+	}
 	return c
 }
 
@@ -324,7 +380,8 @@ type c20Fail struct{ what, clause, exp, got string }
 func c20Cfg() *Cfg { return &Cfg{Dir: "templates", Ext: ".tw"} }
 
 func c20Files(ops []Op) []File {
-	files := []File{{Path: "/srv/app/templates/plain.tw", Data: "<p>plain</p>", Role: "page"}}
+	files := []File{{Path: "/srv/app/templates/plain.tw", Data: "<p>plain</p>", Role: "page"},
+		{Path: "/srv/app/badtpl/broken.tw", Data: "<p>{{ 1 + }}</p>", Role: "page"}}
 	for i, op := range ops {
 		if op.Call != nil && op.Call.ViaTpl {
 			src, _ := op.Call.build()
@@ -372,10 +429,16 @@ func c20Check(sc *Scenario, acc *Acc) (*c20Fail, int) {
 		c := *op.Call
 		w := NewWorld(sc.Cwd, sc.Files)
 		pinSeams()
-		if c.ViaTpl {
-			if o := w.RunOp(Op{Kind: "newtemplate", Cfg: c20Cfg()}, Budget); o.Kind != "ok" {
-				return &c20Fail{"setup", "loading the scenario's tree fails", "", o.Short()}, i
+		// the same loads as in the history (the configuration is process-global by design, so a
+		// later NewTemplate - even a failing one - changes the paths an earlier Template reports),
+		// but no registrations
+		for _, prev := range ops[:i] {
+			if prev.Kind == "newtemplate" {
+				w.RunOp(prev, Budget)
 			}
+		}
+		if c.ViaTpl && w.Tpl == nil {
+			continue
 		}
 		p := &pre{asData: map[int]Obs{}}
 		p.empty = w.RunOp(op, Budget)
@@ -411,6 +474,12 @@ func c20Check(sc *Scenario, acc *Acc) (*c20Fail, int) {
 			if !dup {
 				model[key] = op.Fn
 			}
+		case op.Kind == "newtemplate" && op.Cfg != nil && op.Cfg.Dir != c20Cfg().Dir:
+			// a load that is meant to fail (missing directory / syntax error): the registry
+			// and the previously loaded templates must be unaffected
+			if o.Kind == "ok" {
+				return &c20Fail{"setup", "a load that should fail succeeds", "", o.Short()}, i
+			}
 		case op.Kind == "newtemplate":
 			if o.Kind != "ok" {
 				return &c20Fail{"setup", "loading the scenario's tree fails", "", o.Short()}, i
@@ -422,6 +491,9 @@ func c20Check(sc *Scenario, acc *Acc) (*c20Fail, int) {
 				continue // not generated; defensive
 			}
 			p := pres[i]
+			if p == nil {
+				continue
+			}
 			fn, registered := model[c.Recv+"/"+c.Name]
 			newCalls := w.Rec.Calls[ncalls:]
 			switch {
@@ -434,26 +506,50 @@ func c20Check(sc *Scenario, acc *Acc) (*c20Fail, int) {
 				}
 			case registered:
 				recv := recvNative(c)
-				args := make([]any, len(c.Args))
+				base := make([]any, len(c.Args))
 				for k, a := range c.Args {
-					args[k] = Canon(a)
+					base[k] = Canon(a)
 				}
-				if len(newCalls) != 1 {
-					return &c20Fail{"registered-not-called", "a registered function is not invoked exactly once by a call", "1 invocation", fmt.Sprintf("%d invocations; %s", len(newCalls), o.Short())}, i
+				// one invocation per evaluation of the call site
+				var want [][]any
+				if len(c.Loop) == 0 {
+					want = [][]any{base}
 				}
-				got := newCalls[0]
-				if got.Fn != fn {
-					return &c20Fail{"wrong-function", "the call reaches another function than the first one registered for (type, name)", fmt.Sprint("fn", fn), fmt.Sprint("fn", got.Fn)}, i
+				for _, x := range c.Loop {
+					args := append([]any{}, base...)
+					for _, k := range c.LoopArgs {
+						args = append(args, loopArgCanon(k, x))
+					}
+					want = append(want, args)
 				}
-				if !sameContent(got.Recv, recv) {
-					return &c20Fail{"receiver-conversion", "the function does not receive the receiver as the plain Go value of the same content", Describe(recv), Describe(got.Recv)}, i
+				if len(newCalls) != len(want) {
+					return &c20Fail{"registered-not-called", "a registered function is not invoked exactly once per evaluation of the call", fmt.Sprint(len(want), " invocation(s)"), fmt.Sprintf("%d invocations; %s", len(newCalls), o.Short())}, i
 				}
-				if !sameContent([]any(got.Args), args) {
-					return &c20Fail{"argument-conversion", "the function does not receive the arguments as plain Go values of the same content", Describe(args), Describe([]any(got.Args))}, i
+				exp := ""
+				for k, got := range newCalls {
+					if got.Fn != fn {
+						return &c20Fail{"wrong-function", "the call reaches another function than the first one registered for (type, name)", fmt.Sprint("fn", fn), fmt.Sprint("fn", got.Fn)}, i
+					}
+					if !sameContent(got.Recv, recv) {
+						return &c20Fail{"receiver-conversion", "the function does not receive the receiver as the plain Go value of the same content", Describe(recv), Describe(got.Recv)}, i
+					}
+					if !sameContent([]any(got.Args), want[k]) {
+						what := "argument-conversion"
+						if len(c.Loop) > 0 {
+							what = "argument-conversion-in-loop"
+						}
+						return &c20Fail{what, "the function does not receive the arguments as plain Go values of the same content", Describe(want[k]), Describe([]any(got.Args))}, i
+					}
+					// the result prints as if the Go value had been passed as data
+					res := Catalogue(c.Recv, fn, got.Recv, got.Args)
+					exp += c20AsData(res, false)
+					if len(c.Loop) > 0 {
+						exp += ";"
+					}
 				}
-				// the result prints as if the Go value had been passed as data
-				res := Catalogue(c.Recv, fn, got.Recv, got.Args)
-				exp := c20AsData(res, c.ViaTpl)
+				if c.ViaTpl {
+					exp = "<b>" + exp + "</b>"
+				}
 				if o.Kind != "ok" || o.Out != exp {
 					return &c20Fail{"result-conversion", "the function's result does not appear as if that Go value had been passed as data", fmt.Sprintf("%q", exp), o.Short()}, i
 				}
@@ -638,6 +734,42 @@ func (p c20) Run(seed uint64, run int, tier string, acc *Acc) *Violation {
 		acc.Probe("exhaustive-length-3-histories", int64(len(sub)*len(sub)*len(sub)))
 		return first
 	}
+	if run == 1 || run == 2 {
+		// systematic: registration AFTER a loaded template has already been rendered, per type,
+		// with and without a failing load in between; calls through the template and through EvaluateString
+		var first *Violation
+		seen := map[string]bool{}
+		for _, typ := range c20Types {
+			for _, viaTpl := range []bool{true, false} {
+				for _, badLoad := range []bool{false, true} {
+					if (run == 2) != badLoad {
+						continue
+					}
+					c := CallSpec{Recv: typ, Name: "foo", RecvVal: genRecv(r, typ), RecvLit: r.Chance(50), ViaTpl: viaTpl, Args: []Val{VInt(3)}, ArgLit: []bool{true}}
+					warm := CallSpec{Recv: "str", Name: "len", RecvVal: VStr("abc"), RecvLit: true, ViaTpl: true}
+					h := []Op{{Kind: "newtemplate", Cfg: c20Cfg()}, callOp(1, warm), callOp(2, c)}
+					if badLoad {
+						h = append(h, Op{Kind: "newtemplate", Cfg: &Cfg{Dir: "no-such-dir", Ext: ".tw"}})
+					}
+					h = append(h, Op{Kind: "register", Recv: typ, Name: "foo", Fn: r.Intn(8)})
+					if badLoad {
+						h = append(h, Op{Kind: "newtemplate", Cfg: &Cfg{Dir: "badtpl", Ext: ".tw"}})
+					}
+					h = append(h, callOp(len(h), c), Op{Kind: "register", Recv: typ, Name: "foo", Fn: 6}, callOp(len(h)+2, c))
+					if v := p.runHistory(seed, run, h, acc); v != nil && !seen[v.Sig] {
+						seen[v.Sig] = true
+						if first == nil {
+							first = v
+						} else {
+							acc.Viol = append(acc.Viol, v)
+						}
+					}
+					acc.Probe("late-registration-histories", 1)
+				}
+			}
+		}
+		return first
+	}
 	// random history
 	n := r.Range(3, 20)
 	var ops []Op
@@ -652,6 +784,9 @@ func (p c20) Run(seed uint64, run int, tier string, acc *Acc) *Violation {
 		case c < 5 && hasTpl && !loaded:
 			ops = append(ops, Op{Kind: "newtemplate", Cfg: c20Cfg()})
 			loaded = true
+		case c < 5:
+			// a load that fails: missing directory or a file with a syntax error
+			ops = append(ops, Op{Kind: "newtemplate", Cfg: &Cfg{Dir: Pick(r, []string{"no-such-dir", "badtpl"}), Ext: ".tw"}})
 		default:
 			via := loaded && r.Chance(40)
 			ops = append(ops, callOp(len(ops), genCall(r, typ, name, via)))
